@@ -40,6 +40,8 @@ TYPES = [
     ("MAP<STRING,ARRAY<INT>>", "MAP<STRING,ARRAY<INT>>", None), ("MAP<STRING, ARRAY<INT>>", "MAP<STRING,ARRAY<INT>>", None),
     ("STRUCT<a:INT,b:STRING>", "STRUCT<a:INT,b:STRING>", None), ("STRUCT<a ARRAY<STRING>, b BOOL>", "STRUCT<aARRAY<STRING>,bBOOL>", None),
     ("ARRAY<STRUCT<a:INT,b:STRING>>", "ARRAY<STRUCT<a:INT,b:STRING>>", None), ("ARRAY<MAP<STRING,INT>>", "ARRAY<MAP<STRING,INT>>", None),
+    ("numeric(10,2)[]", "numeric[]", (10, 2)), ("decimal(10,2) unsigned", "decimal unsigned", (10, 2)), ("int unsigned", "int unsigned", None),
+    ("varchar(5)[]", "varchar[]", 5),
     ("ARRAY<STRING>", "ARRAY<STRING>", None), ("ARRAY<ARRAY<INT>>", "ARRAY<ARRAY<INT>>", None), ("STRUCT<a:STRUCT<b:INT>>", "STRUCT<a:STRUCT<b:INT>>", None),
 ]
 NT = len(TYPES)
@@ -129,7 +131,7 @@ def api_c_type(ti, oi, pos, pv):
 # ------------------------------------------------------------------ C07 ----------------------
 LITERALS = ["'a'", "'a b'", "'A b C'", "'k = v'", "'a =b'", "'x  = y'", "'a;b'", "'--x'", "'#x'", "'/* x */'", "'NULL'", "'select'",
             "'CREATE TABLE z'", "'10%'", "'a.b'", "'a_b-c'", "'(x)'", "'a,b'", "'a, b'", "'a=b'", "'it is'", "''", "'black and white'", "'this Or that'",
-            "'not null'"]
+            "'not null'", "'a''b''c'", "'it''s'", "'rock ''n'' roll'", "'not for sale'", "'FOR'", "'x for'"]
 NLIT = len(LITERALS)
 NUMBERS = ["0", "1", "4", "10", "007", "00", "0012", "123456", "9223372036854775808"]
 NNUM = len(NUMBERS)
@@ -469,3 +471,55 @@ def api_c_case_stmt(si, style):
     up = _recase(CASE_STMTS[si], 0)
     got, want = DDLParser(ddl).run(), DDLParser(up).run()
     return {"ddl": ddl, "ddl_upper": up, "got": got, "expected": want, "reproduced": got != want}
+
+
+# ------------------------------------------------------------------ C06 normalize_names, end to end
+NORM_STMTS = [
+    'CREATE TABLE "s"."t" ("id" int, qty int CHECK (qty > 0), `sku` int NOT NULL, [w] int, PRIMARY KEY ("id", `sku`), UNIQUE ([w]));',
+    'CREATE TABLE [dbo].[T] ([a] int PRIMARY KEY, [b] int, CONSTRAINT [uq] UNIQUE ([a], [b]), CONSTRAINT [fk] FOREIGN KEY ([b]) REFERENCES [dbo].[o] ([x]));',
+    'CREATE TABLE "t" ("a" int, "b" int REFERENCES "o" ("x"), UNIQUE KEY "key" ("a", "b"));',
+    'CREATE TABLE t ("a" int, b int);\nALTER TABLE t ADD CONSTRAINT "c" FOREIGN KEY ("a") REFERENCES "o" ("x");\nCREATE UNIQUE INDEX "i" ON t ("a" DESC, b);',
+    'CREATE SEQUENCE "s"."q" START 1;',
+    'CREATE TYPE "s"."ty" AS ENUM (\'a\');',
+]
+NNS = len(NORM_STMTS)
+
+
+def _strip_delims(x):
+    if isinstance(x, str):
+        for o, c in (('"', '"'), ("[", "]"), ("`", "`")):
+            if len(x) > 2 and x.startswith(o) and x.endswith(c):
+                return x[1:-1]
+        return x
+    if isinstance(x, list):
+        return [_strip_delims(v) for v in x]
+    if isinstance(x, dict):
+        return {k: _strip_delims(v) for k, v in x.items()}
+    return x
+
+
+def c_norm_pipe(si: int) -> bool:
+    """
+    C06 end to end: with normalize_names=True the only difference in the whole output of a
+    catalogued statement (delimited names in every naming position, a CHECK before the key list,
+    constraints, foreign keys, ALTER, index, sequence, type) is that each identifier loses its one
+    pair of outer delimiters.
+
+    pre: 0 <= si < NNS
+    post: _
+    """
+    PARSER.normalize_names = False
+    plain = run(NORM_STMTS[si])
+    PARSER.normalize_names = True
+    try:
+        normed = run(NORM_STMTS[si])
+    finally:
+        PARSER.normalize_names = False
+    return bool(plain) and normed == _strip_delims(plain)
+
+
+def api_c_norm_pipe(si):
+    from simple_ddl_parser import DDLParser
+    plain = DDLParser(NORM_STMTS[si]).run()
+    normed = DDLParser(NORM_STMTS[si], normalize_names=True).run()
+    return {"ddl": NORM_STMTS[si], "normalize_names=True": normed, "expected": _strip_delims(plain), "reproduced": normed != _strip_delims(plain)}
